@@ -398,48 +398,33 @@ theorem passA_stable {S : Schema} : ∀ (order req tr : List String),
         exact ih req tr (fun n hn => h n (List.mem_cons_of_mem _ hn))
 
 theorem passB_spec {S : Schema} : ∀ (newly : List String) (st st' : UState), passB S newly st = .ok st' →
-    (∀ x, x ∈ st'.req ↔ x ∈ st.req ∨ ∃ n ∈ newly, x ∈ memberTypesOf S n) ∧
-    (∀ x, x ∈ st'.marked ↔ x ∈ st.marked ∨ ∃ n ∈ newly, x ∈ memberTypesOf S n) ∧
-    st.marked.length ≤ st'.marked.length := by
+    (∀ x, x ∈ st'.req ↔ x ∈ st.req ∨ ∃ n ∈ newly, x ∈ memberTypesOf S n) ∧ st'.marked = st.marked := by
   intro newly
   induction newly with
   | nil =>
     intro st st' h
     simp [passB, pure, Except.pure] at h
     subst h
-    exact ⟨fun x => by simp, fun x => by simp, Nat.le_refl _⟩
+    exact ⟨fun x => by simp, rfl⟩
   | cons n rest ih =>
     intro st st' h
     unfold passB at h
     obtain ⟨ts, hts, hrest⟩ := dbind_eq_ok.mp h
     have hts' := structMemberTypes_eq hts
-    obtain ⟨h1, h2, h3⟩ := ih _ _ hrest
-    refine ⟨?_, ?_, ?_⟩
-    · intro x
-      rw [h1 x]
-      simp only [mem_foldl_addName, hts', List.mem_cons, exists_eq_or_imp]
-      constructor
-      · rintro ((h | h) | h)
-        · exact Or.inl h
-        · exact Or.inr (Or.inl h)
-        · exact Or.inr (Or.inr h)
-      · rintro (h | h | h)
-        · exact Or.inl (Or.inl h)
-        · exact Or.inl (Or.inr h)
-        · exact Or.inr h
-    · intro x
-      rw [h2 x]
-      simp only [mem_foldl_addName, hts', List.mem_cons, exists_eq_or_imp]
-      constructor
-      · rintro ((h | h) | h)
-        · exact Or.inl h
-        · exact Or.inr (Or.inl h)
-        · exact Or.inr (Or.inr h)
-      · rintro (h | h | h)
-        · exact Or.inl (Or.inl h)
-        · exact Or.inl (Or.inr h)
-        · exact Or.inr h
-    · exact Nat.le_trans (length_foldl_addName_le _ _) h3
+    obtain ⟨h1, h2⟩ := ih _ _ hrest
+    refine ⟨?_, h2⟩
+    intro x
+    rw [h1 x]
+    simp only [mem_foldl_addName, hts', List.mem_cons, exists_eq_or_imp]
+    constructor
+    · rintro ((h | h) | h)
+      · exact Or.inl h
+      · exact Or.inr (Or.inl h)
+      · exact Or.inr (Or.inr h)
+    · rintro (h | h | h)
+      · exact Or.inl (Or.inl h)
+      · exact Or.inl (Or.inr h)
+      · exact Or.inr h
 
 theorem passA_tracked_sub {S : Schema} : ∀ (order req tr : List String),
     ∀ x ∈ (passA S order req tr).2, x ∈ tr ∨ x ∈ (passA S order req tr).1 := by
@@ -463,7 +448,8 @@ theorem passA_tracked_sub {S : Schema} : ∀ (order req tr : List String),
       · simp only [hin, if_false] at hx ⊢
         exact ih req tr x hx
 
-/-- no member type of a struct that records a factory type records one itself -/
+/-- no member type of a struct that records a factory type records one itself (the side condition the theorems needed before
+    `_propagate_unaligned` stopped putting member types into `already_marked`; no longer used) -/
 def NoDerivedMemberTypes (S : Schema) : Prop :=
   ∀ n ft, factoryOf S n = some ft → ∀ t ∈ memberTypesOf S n, factoryOf S t = none
 
@@ -471,7 +457,8 @@ structure UInv (S : Schema) (seeds : List String) (st : UState) : Prop where
   sound_req : ∀ x ∈ st.req, Demanded S seeds x
   seeds_in : ∀ x ∈ seeds, x ∈ st.req
   marked_req : ∀ x ∈ st.marked, x ∈ st.req
-  members_done : ∀ n ∈ st.marked, factoryOf S n ≠ none → ∀ t ∈ memberTypesOf S n, t ∈ st.req
+  /-- `already_marked` holds exactly visited descendants: their struct typed members carry the mark -/
+  members_done : ∀ n ∈ st.marked, ∀ t ∈ memberTypesOf S n, t ∈ st.req
 
 /-- the marks are closed under the rules (for the structs the iteration visits) -/
 structure UClosed (S : Schema) (order req : List String) : Prop where
@@ -483,41 +470,38 @@ theorem unalignedPass_sound {S : Schema} {seeds order : List String} {st st' : U
   unfold unalignedPass at h
   simp only [bind, Except.bind] at h
   have hA := passA_sound (S := S) (seeds := seeds) order st.req [] hs (fun _ h => by cases h)
-  obtain ⟨h1, _, _⟩ := passB_spec _ _ _ h
+  obtain ⟨h1, _⟩ := passB_spec _ _ _ h
   intro x hx
   rcases (h1 x).mp hx with hx | ⟨n, hn, hxn⟩
   · exact hA.1 x hx
   · obtain ⟨ft, hft, hd⟩ := hA.2 n (List.mem_filter.mp hn).1
     exact .member hft hd hxn
 
-theorem unalignedPass_inv {S : Schema} {seeds order : List String} {st st' : UState} (hside : NoDerivedMemberTypes S)
+theorem unalignedPass_inv {S : Schema} {seeds order : List String} {st st' : UState}
     (h : unalignedPass S order st = .ok st') (hinv : UInv S seeds st) :
     UInv S seeds st' ∧ st.marked.length ≤ st'.marked.length := by
   have hsound := unalignedPass_sound h hinv.sound_req
   unfold unalignedPass at h
   simp only [bind, Except.bind] at h
-  have hA := passA_sound (S := S) (seeds := seeds) order st.req [] hinv.sound_req (fun _ h => by cases h)
   have hmono := passA_mono (S := S) order st.req []
   have htr := passA_tracked_sub (S := S) order st.req []
-  obtain ⟨h1, h2, h3⟩ := passB_spec _ _ _ h
-  refine ⟨⟨hsound, ?_, ?_, ?_⟩, Nat.le_trans (length_foldl_addName_le _ _) h3⟩
+  obtain ⟨h1, h2⟩ := passB_spec _ _ _ h
+  simp only at h2
+  refine ⟨⟨hsound, ?_, ?_, ?_⟩, by rw [h2]; exact length_foldl_addName_le _ _⟩
   · intro x hx
     exact (h1 x).mpr (Or.inl (hmono.1 x (hinv.seeds_in x hx)))
   · intro x hx
-    rcases (h2 x).mp hx with hx | hx
-    · rcases mem_foldl_addName.mp hx with hx | hx
-      · exact (h1 x).mpr (Or.inl (hmono.1 x (hinv.marked_req x hx)))
-      · rcases htr x (List.mem_filter.mp hx).1 with h | h
-        · cases h
-        · exact (h1 x).mpr (Or.inl h)
-    · exact (h1 x).mpr (Or.inr hx)
-  · intro n hn hfn t ht
-    rcases (h2 n).mp hn with hn | ⟨m, hm, hnm⟩
-    · rcases mem_foldl_addName.mp hn with hn | hn
-      · exact (h1 t).mpr (Or.inl (hmono.1 t (hinv.members_done n hn hfn t ht)))
-      · exact (h1 t).mpr (Or.inr ⟨n, hn, ht⟩)
-    · obtain ⟨ft, hft, _⟩ := hA.2 m (List.mem_filter.mp hm).1
-      exact absurd (hside m ft hft n hnm) hfn
+    rw [h2] at hx
+    rcases mem_foldl_addName.mp hx with hx | hx
+    · exact (h1 x).mpr (Or.inl (hmono.1 x (hinv.marked_req x hx)))
+    · rcases htr x (List.mem_filter.mp hx).1 with h | h
+      · cases h
+      · exact (h1 x).mpr (Or.inl h)
+  · intro n hn t ht
+    rw [h2] at hn
+    rcases mem_foldl_addName.mp hn with hn | hn
+    · exact (h1 t).mpr (Or.inl (hmono.1 t (hinv.members_done n hn t ht)))
+    · exact (h1 t).mpr (Or.inr ⟨n, hn, ht⟩)
 
 /-- a pass that does not grow `already_marked` leaves marks that are closed under the rules -/
 theorem unalignedPass_exit {S : Schema} {seeds order : List String} {st st' : UState}
@@ -525,7 +509,8 @@ theorem unalignedPass_exit {S : Schema} {seeds order : List String} {st st' : US
     st'.req = st.req ∧ UClosed S order st.req := by
   unfold unalignedPass at h
   simp only [bind, Except.bind] at h
-  obtain ⟨h1, h2, h3⟩ := passB_spec _ _ _ h
+  obtain ⟨h1, h2⟩ := passB_spec _ _ _ h
+  simp only at h2
   -- nothing was newly tracked
   have hnewly : (passA S order st.req []).2.filter (fun x => decide (x ∉ st.marked)) = [] := by
     cases hn : (passA S order st.req []).2.filter (fun x => decide (x ∉ st.marked)) with
@@ -535,8 +520,7 @@ theorem unalignedPass_exit {S : Schema} {seeds order : List String} {st st' : US
       have hx : x ∈ (passA S order st.req []).2.filter (fun x => decide (x ∉ st.marked)) := by rw [hn]; exact List.mem_cons_self
       have hxn : x ∉ st.marked := by simpa using (List.mem_filter.mp hx).2
       have hlt := length_foldl_addName_lt (ts := (passA S order st.req []).2.filter (fun x => decide (x ∉ st.marked))) hx hxn
-      have h3' : (List.foldl addName st.marked ((passA S order st.req []).2.filter (fun x => decide (x ∉ st.marked)))).length
-          ≤ st'.marked.length := h3
+      rw [h2] at hlen
       omega
   have htracked : ∀ x ∈ (passA S order st.req []).2, x ∈ st.marked := by
     intro x hx
@@ -553,7 +537,7 @@ theorem unalignedPass_exit {S : Schema} {seeds order : List String} {st st' : US
   simp [passB, pure, Except.pure] at h
   refine ⟨by rw [← h, hstable], ⟨fun n hn ft hft hin => hinv.marked_req n (hcand n hn ft hft hin), ?_⟩⟩
   intro n hn ft hft hin t ht
-  exact hinv.members_done n (hcand n hn ft hft hin) (by rw [hft]; simp) t ht
+  exact hinv.members_done n (hcand n hn ft hft hin) t ht
 
 theorem unalignedLoop_sound {S : Schema} {seeds order : List String} : ∀ (fuel : Nat) (st st' : UState),
     unalignedLoop S order fuel st = .ok st' → (∀ x ∈ st.req, Demanded S seeds x) → ∀ x ∈ st'.req, Demanded S seeds x := by
@@ -571,7 +555,7 @@ theorem unalignedLoop_sound {S : Schema} {seeds order : List String} : ∀ (fuel
     · simp only [hlen, if_false] at hrest
       exact ih _ _ hrest hs1
 
-theorem unalignedLoop_closed {S : Schema} {seeds order : List String} (hside : NoDerivedMemberTypes S) : ∀ (fuel : Nat) (st st' : UState),
+theorem unalignedLoop_closed {S : Schema} {seeds order : List String} : ∀ (fuel : Nat) (st st' : UState),
     unalignedLoop S order fuel st = .ok st' → UInv S seeds st → UInv S seeds st' ∧ UClosed S order st'.req := by
   intro fuel
   induction fuel with
@@ -580,7 +564,7 @@ theorem unalignedLoop_closed {S : Schema} {seeds order : List String} (hside : N
     intro st st' h hinv
     unfold unalignedLoop at h
     obtain ⟨st1, hst1, hrest⟩ := dbind_eq_ok.mp h
-    obtain ⟨hinv1, _⟩ := unalignedPass_inv hside hst1 hinv
+    obtain ⟨hinv1, _⟩ := unalignedPass_inv hst1 hinv
     by_cases hlen : st1.marked.length = st.marked.length
     · simp [hlen, pure, Except.pure] at hrest
       subst hrest
